@@ -24,6 +24,7 @@ def run(ctx):
     ctx.engines = ["clihist"]
     hs = C.c05_lag_histories(ctx.rng)
     hs += C.c05_drop_full_queue_histories(ctx.rng)
+    hs += C.c12_mixed_array_histories(ctx.rng, nmax=2)
     hs += random_histories(ctx, ctx.scale(1500, 150000))
     outs = C.run_histories(ctx, hs, ["c05"])
     # lag scenarios: the stream must end, and end as lagged
